@@ -11,4 +11,41 @@ META = {
                          "call resolution by class-hierarchy analysis (xstatic.program)"],
         "not_decided": ["byte-for-byte read-back", "front-end equivalence", "restarts", "anything inside dulwich"],
     },
+    "C03": {
+        "explanation": "Static clauses of C03: (H1) table agreement - each header name the handlers read, folded through the "
+                       "WSGI adapter's key expression from its CGI spelling, must come out as the same name; (P1) guard analysis on "
+                       "the CFG of PUT/DELETE/GET: every path to an effect passes the etag_matches test or the header-absent edge, "
+                       "and the failing edge cannot reach the effect and answers 412/304; (P2) def-use: the etag tested is "
+                       "r.get_etag() of the addressed resource and is the value handed down; (P3) the same guard analysis on the "
+                       "store API (_check_duplicate, delete_one). String semantics of etag_matches are not decided.",
+        "trusted_base": ["multidict.CIMultiDict is case-insensitive", "PEP 3333 CGI spelling of header names"],
+        "not_decided": ["etag_matches on malformed lists / weak validators"],
+    },
+    "C14": {
+        "explanation": "Necessary conditions of C14 decided on source: (V1) must-pass-through on the CFG of both import_one - "
+                       "validate() of the File built from the uploaded data completes before every visible mutation, and the bytes "
+                       "handed to storage are that object's normalized(); (V2) the validators are registered on every opened store "
+                       "and raise on the documented conditions, parser errors are translated; (V3) exception-translation chain "
+                       "InvalidFileContents -> valid-calendar-data -> 412; (V4) no-op guard before commit. The fixed-point half "
+                       "(to_ical . from_ical idempotent) is a property of the icalendar library and is not decided.",
+        "trusted_base": ["icalendar.Calendar.from_ical / cal.errors", "vobject.readOne / validate()"],
+        "not_decided": ["idempotence of the icalendar serialiser on its own output"],
+    },
+    "C09": {
+        "explanation": "Structural clauses of C09: (K1) the _commit_tree call is reachable only through the 'changed' side of the "
+                       "id comparison; (K2) who-may-move-a-ref: zero ref writes outside do_commit, do_commit only from _commit_tree "
+                       "with the store's ref (positive control fixture must match); (K3) pairing of working-tree write, index entry "
+                       "and commit inside the critical section; (K4) who-may-write inside a working tree; (K5) def-use: the tree "
+                       "committed is the tree built and added. What git fsck says is inside dulwich and not decided.",
+        "trusted_base": ["dulwich Repo.do_commit appends one commit whose parent is the current head of ref"],
+        "not_decided": ["git fsck result", "exactly-one-commit beyond K1/K2"],
+    },
+    "C06": {
+        "explanation": "Structural clauses of C06: (U1) must-pass-through - _check_duplicate completes before every mutation, gets the "
+                       "uploaded object's UID, refreshes the map before the lookup and refuses only under existing_name != name; (U2) "
+                       "paired-map coherence of _fname_to_uid/_uid_to_fname in _scan_uids (def-use on the two subscripted attributes); "
+                       "(U3) DuplicateUidError -> no-uid-conflict -> 412 chain; (U4) shape of get_uid. UID string equivalence is not decided.",
+        "trusted_base": ["icalendar component['UID'] lookup"],
+        "not_decided": ["UID equivalence classes (case, escapes)"],
+    },
 }
